@@ -241,6 +241,42 @@ def run(tier):
             continue
         v.distinct(("long", l, c, kpre, bufk, mode))
     stats.update({"long_encoding_lines": len(longl), "long_encoding_lengths_seen": dict(sorted(lens_seen.items())), "long_encoding_geometry_calls": len(cases)})
+    # ---- (b3) programs whose code runs across the growth thresholds of the library-managed buffer (every 6000 bytes) while chunk
+    # fitting pads / counting counts there: the position of the last instructions sweeps through each threshold, for chunk sizes that
+    # do and do not divide 6000; every growth is forced to MOVE the mapping (ld --wrap mremap), so a pointer kept across it faults
+    wrapb = common.build("wrap")
+    cases, meta = [], []
+    cs3 = [7, 9, 16, 17, 24, 100, 143, 255, 256, 1000, 4097] + ([3, 11, 13, 33, 64, 77, 299, 600, 5999, 6001] if full else [])
+    tails3 = [["mov rax, 0x1122334455667788", "mov qword [eax+ebx*8+0x11223344], 0x55667788", "ret"], ["nop7", "nop11", "vpaddb ymm8, ymm9, [r10+r11*8+0x11223344]", "ret"],
+              ["add qword [eax+ebx*8+0x11223344], 0x1122334455", "test qword [r8d+r9d*8+0x11223344], 0x1122334455667788", "clc"]]
+    for T in (6000, 12000) if not full else (6000, 12000, 18000, 66000):
+        for p in (range(T - 45, T + 8) if full else range(T - 30, T + 4)):
+            for c in (cs3 if full else rnd.sample(cs3, 4)):
+                tl = rnd.choice(tails3)
+                text = "nop\n" * p + "\n".join(tl)
+                mode = "fit" if (p + c) % 3 else "cnt"
+                cmds = ["wrap reset", "wrap forcemove 1", "new 0 int"]
+                if mode == "fit":
+                    cmds.append("chunk 0 %d" % c)
+                cmds.append(("cnt 0 %d %%s" % c if mode == "cnt" else "asm 0 %s") % common.hx(text))
+                cmds += ["getoff 0", "wrapreport"]
+                cases.append(cmds)
+                meta.append((T, p, c, mode, tl[0]))
+    res = common.run_cases(wrapb, cases, tag="c09t", per_case_timeout=20)
+    moves = 0
+    for (T, p, c, mode, t0), r in zip(meta, res):
+        v.count()
+        case = {"key": "threshold %d: %d nops + %r chunk=%d %s" % (T, p, t0, c, mode), "fam": "sweep_threshold", "c": c, "len": p}
+        if r["crash"]:
+            v.violation(case, r["crash"]["sig"], (r["crash"]["what"] + "\n" + r["crash"]["stderr"][-1500:]))
+            continue
+        a = r["records"][-3].split()
+        if a[0] != "A" or a[1] not in ("0", "1"):
+            v.violation(case, "return-value-not-0/1", r["records"][-3])
+            continue
+        moves += int(r["records"][-1].split("moves=")[1].split()[0])
+        v.distinct(("threshold", T, p, c, mode))
+    stats.update({"growth_threshold_calls": len(cases), "growth_threshold_forced_moves": moves})
     v.sample({"sweep": "len100", "text": [t for n, t in sw if n == "len100"][0]})
     v.sample({"sweep": "keywords", "text": [t for n, t in sw if n == "keywords"][5]})
     # ------------------------------------------------------------------ (c) MSan replay of seeds + the fuzzer's corpus + sweeps
@@ -299,7 +335,7 @@ def run(tier):
     v.cov["rule"] = ("(a) libFuzzer (clang, ASan+UBSan, reports fatal) on a structure-aware target: 8 control bytes choose option values (incl. out-of-range), entry point (str, str+fitting, counting, file, file-counting, "
                      "two calls), chunk size, caller/library buffer, buffer length and start offset, the rest is the NUL-terminated text; dictionary of all mnemonics/registers/keywords/punctuation, seeds = the C01-C05 "
                      "corpora; %d jobs x %d runs; (b) directed sweeps: filtered line lengths 90-110 x 12 line shapes x 13 last-token kinds, 0-8 operands, every keyword pair, every byte value at every position of 6 templates, "
-                     "1 MiB lines, 10^5-line programs, on caller and library buffers in plain/fitting/counting mode; the longest encodings the library emits (ALU/test/mov x 7 memory shapes x size keywords x immediates of 1-8 bytes, incl. ones the destination cannot hold: up to 17 bytes) x chunk sizes around their length x fill levels of the chunk, fitting and counting; (c) seeds + fuzzer corpus + sweeps replayed under MemorySanitizer. Oracle: no sanitizer report, no signal, "
+                     "1 MiB lines, 10^5-line programs, on caller and library buffers in plain/fitting/counting mode; the longest encodings the library emits (ALU/test/mov x 7 memory shapes x size keywords x immediates of 1-8 bytes, incl. ones the destination cannot hold: up to 17 bytes) x chunk sizes around their length x fill levels of the chunk, fitting and counting; programs whose last instructions sweep through the growth thresholds of the library buffer (6000, 12000, ...) under chunk sizes that do / do not divide 6000, with every growth forced to move the mapping; (c) seeds + fuzzer corpus + sweeps replayed under MemorySanitizer. Oracle: no sanitizer report, no signal, "
                      "no hang (10 s watchdog), return value in {0,1}. distinct_nontrivial = distinct directed cases + coverage edges reached by the fuzzer" % (njobs, per))
     v.cov["exhaustive"] = False
     v.cov.update(stats)
